@@ -130,14 +130,15 @@ def gen_good_kwargs(rng, kind):
         d['boot_script'] = '#!/bin/bash\necho "hi <&>"'
     if rng.random() < 0.1:
         d['details'] = 'some "details"'
-    if kind in ('node', 'component', 'service') and rng.random() < 0.3:
+    if kind in ('node', 'component', 'service', 'iface') and rng.random() < 0.3:
         # any other settable property may be given at creation too (it is read back after the call, C02)
         from . import w2_props
-        names = [n for n in w2_props.settable(kind) if n not in w2_props.NOT_GENERATED and n not in CTOR_PARAMS and
+        skind = 'interface' if kind == 'iface' else kind
+        names = [n for n in w2_props.settable(skind) if n not in w2_props.NOT_GENERATED and n not in CTOR_PARAMS and
                  n not in d]
         for _ in range(rng.choice([1, 1, 2])):
             n = rng.choice(names)
-            v = w2_props.gen_value(rng, n, kind)
+            v = w2_props.gen_value(rng, n, skind)
             if v is not None and n not in d:
                 d[n] = v
     return d
@@ -942,13 +943,16 @@ def g_node_add_network_service(w, rng, st):
     if 'node_service_name_reuse' in w.avoid:
         pool = ['%s-ns1' % st.name(n), '%s-ns2' % st.name(n)]
     return {'node': st.name(n), 'name': pick_name(rng, pool, existing),
-            'nstype': rng.choice(['MPLS', 'VLAN', 'OVS', 'P4']), 'id': w.new_id(rng)}
+            'nstype': rng.choice(['MPLS', 'VLAN', 'OVS', 'P4']), 'id': w.new_id(rng),
+            'kw': gen_good_kwargs(rng, 'service') if rng.random() < 0.4 else {}}
 
 
 @op('node_add_network_service', 'add')
 def x_node_add_network_service(w, s, st, info):
     from fim.slivers.network_service import ServiceType
-    get_node(w, s['node']).add_network_service(name=s['name'], node_id=s['id'], nstype=ServiceType[s['nstype']])
+    ns = get_node(w, s['node']).add_network_service(name=s['name'], node_id=s['id'], nstype=ServiceType[s['nstype']],
+                                                    **build_ctor_kwargs(s.get('kw')))
+    check_creation_kwargs(w, ns, s.get('kw'), 'service')
 
 
 def node_services(st):
@@ -975,7 +979,9 @@ def x_svc_add_interface(w, s, st, info):
     from fim.slivers.interface_info import InterfaceType
     sv = get_node_service_retained(w, s['node'], s['svc'])
     note_handle(w, info, sv, st)
-    sv.add_interface(name=s['name'], node_id=s['id'], itype=InterfaceType[s['itype']], **build_kwargs(s['kw']))
+    i = sv.add_interface(name=s['name'], node_id=s['id'], itype=InterfaceType[s['itype']], **build_ctor_kwargs(s['kw']))
+    if i is not None and s.get('op') != 'failing':
+        check_creation_kwargs(w, i, s['kw'], 'interface')
 
 
 @op('add_link', 'add')
